@@ -22,7 +22,7 @@ let () = iter_lines (fun line ->
     let s0 = init cfg progs in
     let nt = List.length (threads s0) in
     let tids = List.init nt nat_of_int in
-    let (terms, nstates, ntrans, trunc) = explore (step cfg) tids (fun _ -> true) s0 3000000 in
+    let (terms, nstates, ntrans, trunc) = explore (step cfg) tids (fun _ -> true) s0 400000 in
     let outs = Hashtbl.create 64 in
     let deadlocks = ref 0 in
     List.iter (fun s ->
